@@ -1459,7 +1459,7 @@ class Interp:
         raise Unsupported("del item")
 
     def hashable(self, key):
-        if isinstance(key, (str, int, bool, tuple, frozenset)) or key is None:
+        if isinstance(key, (str, int, bool, tuple, frozenset, type)) or key is None:
             return key
         import enum
         if isinstance(key, enum.Enum):
@@ -1529,7 +1529,28 @@ class Interp:
         return SList(out)
 
     def e_Set(self, node, fr):
-        return SSet([self.hashable(self.eval(e, fr)) for e in node.elts])
+        vals, stars = [], []
+        for e in node.elts:
+            if isinstance(e, ast.Starred):
+                stars.append(self.eval(e.value, fr))
+            else:
+                vals.append(self.eval(e, fr))
+        try:
+            items = [self.hashable(v) for v in vals]
+            for s in stars:
+                if not isinstance(s, (SSet, set, frozenset)):
+                    raise Unsupported("starred non-set in a set display")
+                items.extend(s.items if isinstance(s, SSet) else s)
+            return SSet(items)
+        except Unsupported:
+            # symbolic elements / sets of unknown content: a set that records what was put into it
+            from .absdata import GrowSet
+            g = GrowSet("set-display")
+            for s in stars:
+                g.added.append(("update", s))
+            for v in vals:
+                g.added.append(("add", v))
+            return g
 
     def e_Dict(self, node, fr):
         if not node.keys and getattr(self, "empty_dict_hook", None) is not None:
